@@ -215,6 +215,8 @@ func verifyFunc(w *World, fi *FuncInfo, fc *FuncContract, sweep bool) (res *Func
 			// methods are called on non-nil receivers unless the contract says otherwise
 			if si := vc.ss.info[v.Sort]; si != nil && si.Kind == "ptr" {
 				vc.assume(tBool(true), Term{fmt.Sprintf("((_ is ref.%s) %s)", v.Sort, v.S), SBool, nil})
+			} else if si != nil && si.Kind == "opaque" {
+				vc.assume(tBool(true), tNot(vc.isNil(v, fi.Decl.Pos())))
 			}
 		}
 		if obj != nil {
